@@ -249,9 +249,6 @@ func (c *Ctx) writerRun(name string, cases []*WCase, withStd bool) (int, error) 
 		bad := 0
 		for _, v := range viols {
 			for _, cl := range v.Clauses {
-				if cl == "C01.close_fastgo" { // a statement about fastgo's Reader, decided by C02's check
-					continue
-				}
 				bad++
 				if bad <= 5 {
 					c.logf("R3: the contract rejects the standard library: clause %s case %s event %s", cl, v.Case, v.Event)
